@@ -126,10 +126,90 @@ def matrix():
     return out
 
 
-def build(name, main=None, hooks=None):
+# ------------------------------------------------------------------------------------------------- override matrix (C07)
+def override_program():
+    """one program exercising every overridable hook kind twice; returns (funs, main)"""
+    N = _N()
+    c = lambda z: ("const", N(), "int", z)
+    nm = lambda x: ("name", N(), x)
+    call = lambda f, *a: ("call", N(), nm(f), list(a))
+    kc = lambda e: ("expr", call("k", e))
+    fnid = N()
+    fbody = [("if", N(), ("cmp", N(), nm("a"), [("CLessThan", c(1))]), [("return", N(), c(0))], []),
+             ("return", N(), ("bin", N(), "BAdd", nm("a"), call("f0", ("bin", N(), "BSubtract", nm("a"), c(1)))))]
+    funs = [{"nid": fnid, "name": "f0", "params": ["a"], "locals": [], "body": fbody}]
+    main = [
+        ("def", fnid, 0, "f0"),
+        ("assign", N(), [("tname", "v")], call("k", c(3))),
+        ("assign", N(), [("tname", "o")], call("r", c(1))),
+        ("assign", N(), [("tname", "x")], ("bin", N(), "BAdd", nm("v"), c(2))),
+        ("assign", N(), [("tname", "y")], ("attr", N(), nm("o"), "a")),
+        ("assign", N(), [("tname", "z")], ("sub", N(), nm("o"), c(1))),
+        ("assign", N(), [("tname", "t")], ("const", N(), "str", "s")),
+        ("assign", N(), [("tname", "b")], ("const", N(), "bool", True)),
+        ("if", N(), ("cmp", N(), nm("x"), [("CLessThan", c(9))]), [kc(c(1))], [kc(c(2))]),
+        ("if", N(), ("cmp", N(), nm("x"), [("CEqual", c(5))]), [kc(c(3))], [kc(c(4))]),
+        ("assign", N(), [("tname", "i1")], c(0)),
+        ("while", N(), ("cmp", N(), nm("i1"), [("CLessThan", c(3))]),
+         [("assign", N(), [("tname", "i1")], ("bin", N(), "BAdd", nm("i1"), c(1))),
+          ("if", N(), ("cmp", N(), nm("i1"), [("CEqual", c(1))]), [("continue", N())], []),
+          ("if", N(), ("cmp", N(), nm("i1"), [("CEqual", c(3))]), [("break", N())], []),
+          kc(nm("i1"))],
+         [kc(c(8))]),
+        ("for", N(), "i2", ("list", N(), [c(1), c(2)]),
+         [("if", N(), ("cmp", N(), nm("i2"), [("CEqual", c(2))]), [("break", N())], []), kc(nm("i2"))], [kc(c(9))]),
+        ("try", N(), [("assert", N(), nm("x"), None), ("assert", N(), ("cmp", N(), nm("x"), [("CEqual", c(5))]), None)],
+         [(nm("AssertionError"), None, [kc(c(6))])], [], []),
+        ("assign", N(), [("tname", "w")], call("f0", c(2))),
+        ("assign", N(), [("tname", "x")], ("bin", N(), "BSubtract", ("bin", N(), "BMultiply", nm("x"), c(2)), c(1))),
+        kc(nm("x")),
+    ]
+    return funs, main
+
+
+OVERRIDE_VALUES = {"enter_if": [True, False], "enter_while": [True, False], "_assert": [True, False], "_break": [True, False],
+                   "_continue": [True, False], "boolean": [True, False], "string": ["zz", ""]}
+
+
+def override_cases(pid, overridable, all_hooks):
+    out, rout = [], []
+    funs, main = override_program()
+    prog, _ = build("override", main, list(all_hooks), funs)
+    for hk in overridable:
+        for k in (0, 1):
+            for val in OVERRIDE_VALUES.get(hk, [0, 7]):
+                ans = [{"cls": "A0", "hooks": {x: None for x in set(all_hooks) | {hk}}, "script": {hk: [None] * k + [val]}}]
+                name = "override:%s:%d:%r" % (hk, k, val)
+                out.append({"prog": prog, "analyses": ans, "coverage": False, "mode": "corpus:" + name})
+                rout.append({"id": "%s/corpus/%s" % (pid, name), "files": {"main.py": prog["source"]}, "analyses": ans})
+    return out, rout
+
+
+def bare_return_program():
+    N = _N()
+    c = lambda z: ("const", N(), "int", z)
+    nm = lambda x: ("name", N(), x)
+    fnid = N()
+    fbody = [("if", N(), ("cmp", N(), nm("a"), [("CLessThan", c(1))]), [("return", N(), None)], []),
+             ("expr", ("call", N(), nm("k"), [nm("a")])),
+             ("return", N(), None)]
+    gnid = N()
+    gbody = [("expr", ("call", N(), nm("k"), [c(5)]))]
+    funs = [{"nid": fnid, "name": "f0", "params": ["a"], "locals": [], "body": fbody},
+            {"nid": gnid, "name": "f1", "params": [], "locals": [], "body": gbody}]
+    main = [("def", fnid, 0, "f0"), ("def", gnid, 1, "f1"),
+            ("assign", N(), [("tname", "x")], ("call", N(), nm("f0"), [c(0)])),
+            ("assign", N(), [("tname", "y")], ("call", N(), nm("f0"), [c(2)])),
+            ("assign", N(), [("tname", "z")], ("call", N(), nm("f1"), []))]
+    return funs, main, ["_return", "function_enter", "function_exit", "implicit_return", "pre_call", "post_call"]
+
+
+def build(name, main=None, hooks=None, funs=None):
+    if name == "bare_return" and main is None:
+        funs, main, hooks = bare_return_program()
     if main is None:
         main, hooks = (WITNESSES.get(name) or REGRESSIONS[name])
-    prog = {"funs": [], "main": main}
+    prog = {"funs": funs or [], "main": main}
     pr = genprog.Printer()
     src = pr.program(prog)
     compile(src, "<corpus:%s>" % name, "exec")
@@ -139,7 +219,7 @@ def build(name, main=None, hooks=None):
 
 def cases(pid, all_hooks=()):
     out, rout = [], []
-    items = [(name, None, None) for name in list(WITNESSES) + list(REGRESSIONS)]
+    items = [(name, None, None) for name in list(WITNESSES) + list(REGRESSIONS) + ["bare_return"]]
     items += [("matrix:" + name, main, list(all_hooks)) for name, main in matrix().items()]
     for name, main, hk in items:
         prog, hooks = build(name, main, hk)
